@@ -36,7 +36,8 @@ ValidRle(r) ==
         sep(p) == p < 0 \/ p >= N \/ Class(SymAt(r.rle, p), r.sch) \in SepClasses
         fuzzy == FuzzyKind(r.kind)
     IN /\ r.n = N
-       /\ (r.s >= 0) <=> Witness(r.kind, small, r.p, r.cs, r.norm, r.sch)
+       /\ (r.s >= 0) <=> (IF fuzzy THEN HasEmb(FoldSeq(small, r.cs, r.norm), r.p)      \* = Witness: MC_Algo!GreedyComplete
+                          ELSE Witness(r.kind, small, r.p, r.cs, r.norm, r.sch))
        /\ r.s >= 0 =>
             /\ r.s <= r.e /\ r.e <= N
             /\ fuzzy /\ r.wp => /\ Len(r.pos) = M
